@@ -1,0 +1,7 @@
+//go:build !verif
+
+package http1
+
+// verifYield is a no-op unless built with the verif tag (schedule perturbation
+// points for the verification harness, always outside connsLock).
+func verifYield(int) {}
